@@ -221,6 +221,11 @@ def run(ck, only=None):
                         hit.add("Nz")
                     pattern_extras[(gid, roots, f"form-{fname}")] = hit
                 variants.append(("norec", [KIND_FLAG[kinds[roots[0]]], roots[0], "--no-recursive-allowlist"], set()))
+            if all(kinds[r] in TYPE_KINDS for r in roots):
+                # generators for functions / variables switched off: what the allowlisted types need must still be followed
+                base = [x for r in roots for x in (KIND_FLAG[kinds[r]], r)]
+                variants.append(("ignore-functions", base + ["--ignore-functions"], set()))
+                variants.append(("generate-types", base + ["--generate", "types"], set()))
             if len(roots) <= 2:
                 for b in names:
                     if kinds[b] in TYPE_KINDS:
@@ -283,6 +288,8 @@ def run(ck, only=None):
     compile_groups(ck, compile_list, meta, wd)
     if not only or only.get("part") == "special":
         special_cases(ck)
+    if not only or only.get("part") == "anon":
+        anon_cases(ck, only)
     ck.sample({"graph": gs[0][0] if gs else None, "header": header_of(gs[0][1]) if gs else None})
     ck.extra["graphs"] = len(gs)
     ck.extra["allowlist_runs"] = len(meta)
@@ -324,7 +331,7 @@ def compile_groups(ck, items, meta, wd):
             gid, nodes, roots, vname, blocked = meta[jid]
             ck.violation(f"graph=[{gid}] roots={list(roots)} variant={vname} not-self-contained",
                          {"graph": gid, "job": jid, "why": "the allowlisted bindings do not compile on their own: " + " | ".join(msgs[:3])})
-    ck.extra["outputs_compiled"] = len(items)
+    ck.extra["outputs_compiled"] = ck.extra.get("outputs_compiled", 0) + len(items)
 
 
 SPECIAL_HPP = r'''
@@ -375,6 +382,90 @@ def special_cases(ck):
         extra = sorted(mustnot & names)
         if missing or extra:
             ck.violation(f"special flags={fl}", {"part": "special", "why": f"missing {missing}; wrongly emitted {extra}; emitted {sorted(names)[:14]}"})
+
+
+ANON_H = r'''
+enum { FLAG_A = 1, FLAG_B = 2 };
+enum { MODE_X = 10, MODE_Y };
+enum { LIMIT_SOFT = 100, LIMIT_HARD };
+struct Outer { struct { int a; } in1; union { int u; float f; } in2; enum { OE_A, OE_B } oe; struct { int b; }; };
+typedef struct { int x; } AnonT;
+typedef union { int y; char z; } AnonU;
+int use_outer(struct Outer *o); int use_anon(AnonT *t, AnonU *u);
+extern int gv;
+'''
+ANON_ROOTS = [("--allowlist-var", "FLAG_A", "FLAG_A"), ("--allowlist-var", "MODE_Y", "MODE_Y"), ("--allowlist-var", "LIMIT_.*", "LIMIT_SOFT"),
+              ("--allowlist-function", "use_outer", "use_outer"), ("--allowlist-function", "use_anon", "use_anon"), ("--allowlist-var", "gv", "gv"),
+              ("--allowlist-type", "Outer", "Outer"), ("--allowlist-type", "AnonU", "AnonU")]
+ANON_STYLES = [("consts", []), ("rust", ["--default-enum-style", "rust"]), ("newtype", ["--default-enum-style", "newtype"]),
+               ("moduleconsts", ["--default-enum-style", "moduleconsts"])]
+
+
+def anon_cases(ck, only=None):
+    """Unnamed enums / anonymous records get generated names (_bindgen_ty_N, Outer__bindgen_ty_N): every non-empty subset of
+    eight roots x four enum styles; each emitted item must be token-identical to the item of that name in the full bindings."""
+    wd = os.path.join(ck.wd, "anon")
+    os.makedirs(wd, exist_ok=True)
+    hp = os.path.join(wd, "anon.h")
+    open(hp, "w").write(ANON_H)
+    subsets = [s for r in range(1, len(ANON_ROOTS) + 1) for s in itertools.combinations(range(len(ANON_ROOTS)), r)]
+    if ck.tier == "quick":
+        subsets = [s for s in subsets if len(s) <= 2 or len(s) == len(ANON_ROOTS)]
+    jobs = []
+    for sn, sf in ANON_STYLES:
+        jobs.append({"id": f"{sn}|full", "args": [hp, "--formatter", "none", "--no-layout-tests"] + sf, "inventory": True})
+        for sub in subsets:
+            fl = [x for i in sub for x in ANON_ROOTS[i][:2]]
+            jobs.append({"id": f"{sn}|{','.join(map(str, sub))}", "args": [hp, "--formatter", "none", "--no-layout-tests"] + sf + fl, "inventory": True})
+    res = common.run_jobs(jobs, wd)
+    comp = []
+    for j in jobs:
+        sn, sub = j["id"].split("|")
+        if sub == "full":
+            continue
+        ck.count()
+        ck.nontriv(("anon", j["id"]))
+        r, full = res[j["id"]], res[f"{sn}|full"]
+        roots = [ANON_ROOTS[int(i)][2] for i in sub.split(",")]
+        case = f"anonymous-items style={sn} roots={roots}"
+        det = {"part": "anon", "job": j["id"]}
+        if r["status"] != "ok" or full["status"] != "ok":
+            ck.violation(case + " generation-failed", dict(det, why=str(r)[:200]))
+            continue
+        got, fn = emitted_all(r["inventory"]), emitted_all(full["inventory"])
+        probs = []
+        for n, tok in got.items():
+            if n not in fn:
+                probs.append(f"item {n} does not exist in the un-allowlisted bindings")
+            elif fn[n] != tok:
+                probs.append(f"item {n} differs from the un-allowlisted bindings")
+        for rt in roots:
+            if not any(rt == n or n.endswith("::" + rt) for n in got):
+                probs.append(f"allowlisted {rt} not emitted")
+        if probs:
+            ck.violation(case, dict(det, why="; ".join(probs)[:500]))
+        else:
+            comp.append((j["id"], r["text"]))
+    meta = {jid: (f"anonymous-items {jid}", [], [jid], "anon", set()) for jid, _ in comp}
+    compile_groups(ck, comp, meta, wd)
+    ck.extra["anonymous_item_runs"] = len(jobs)
+
+
+def emitted_all(inv, prefix=""):
+    """{path: tokens} of every named item, variants of enums and items inside modules included."""
+    out = {}
+    for it in inv["items"]:
+        k, n = it["kind"], it.get("name")
+        if k == "foreign_mod":
+            for fi in it["items"]:
+                out[prefix + fi["name"]] = fi["tokens"]
+        elif k == "mod" and n:
+            out.update(emitted_all(it, prefix + n + "::"))
+        elif k == "impl":
+            out[prefix + f"impl {it.get('trait')} for {it.get('self_ty')}"] = it["tokens"]
+        elif n and n != "_":
+            out[prefix + n] = it["tokens"]
+    return out
 
 
 def replay(ck, case, detail):
